@@ -4,13 +4,13 @@ from .. import trainsim
 
 ID = "C07"
 LEVEL = "exploration"
-PROBES = ("validations", "val_calls", "adaptive_checked")
+PROBES = ("validations", "val_calls", "adaptive_checked", "preludes")
 RULE = ("case = training configuration (1-4 conditions of kinds PINN/Mean/Data/AdaptiveWeights/ParameterCondition sharing or not "
         "sharing 1-2 FCN models incl. adaptive activations, optional inverse-problem Parameter, weights, optimizer in "
         "{SGD(+momentum,nesterov), Adam(+weight decay), AdamW, RMSprop, Adagrad}, scheduler in {none, StepLR, ExponentialLR, "
         "MultiStepLR} x scheduler_frequency, N in [1,12]) x *schedule* chosen by the simulator for Lightning "
         "(val_check_interval, num_sanity_val_steps, check_val_every_n_epoch, log_every_n_steps, 0-2 validation conditions) "
-        "x SimRNG fault plan for the random/rejection/LHS samplers. World A = real Solver under a real pl.Trainer, world B = "
+        "x SimRNG fault plan for the random/rejection/LHS samplers x an optional *prelude* (an earlier unrelated Solver fit in the same process with another optimizer/lr and library default arguments: state must not leak between Solver instances). World A = real Solver under a real pl.Trainer, world B = "
         "R-loop (plain loop over the learnable tensors found by our own attribute traversal of the condition objects). "
         "Oracle: after every step all learnable tensors agree (rtol 1e-4/atol 1e-6), learning rate and scheduler step count "
         "agree, the same tensors moved, both worlds consumed the same number of library draws, every training condition was "
@@ -36,7 +36,9 @@ def gen_case(seed, tier="quick"):
 
 
 def run_case(case):
-    return trainsim.run_c07(case)
+    # hermetic: every case starts from the same process image (see core/hermetic.py)
+    from ..core.hermetic import hermetic
+    return hermetic(trainsim.run_c07)(case)
 
 
 def shrink(case):
@@ -48,6 +50,8 @@ def shrink(case):
         return dict(case, spec=s)
     if case.get("fault"):
         yield dict(case, fault=None)
+    if case.get("prelude"):
+        yield dict(case, prelude=None)
     if spec.get("val"):
         yield w(val=[])
     if spec["N"] > 1:
